@@ -77,7 +77,25 @@ pub fn stop_query() {
 /// # Return
 /// * true/false
 pub fn query_stopped() -> bool {
+    #[cfg(suiron_verif)]
+    unsafe {
+        if let Some(n) = VERIF_STOP_AFTER_READS {
+            if n == 0 { VERIF_STOP_AFTER_READS = None; SUIRON_STOP_QUERY = true; }
+            else { VERIF_STOP_AFTER_READS = Some(n - 1); }
+        }
+    }
     unsafe { SUIRON_STOP_QUERY }
+}
+
+/// Verification hook (only with `--cfg suiron_verif`): makes the stop-query flag
+/// read false `n` more times and true from then on, as if the query timer
+/// had fired at that point. `None` switches the schedule off.
+#[cfg(suiron_verif)]
+static mut VERIF_STOP_AFTER_READS: Option<u64> = None;
+
+#[cfg(suiron_verif)]
+pub fn verif_stop_after_reads(n: Option<u64>) {
+    unsafe { VERIF_STOP_AFTER_READS = n; }
 }
 
 #[cfg(test)]
